@@ -80,8 +80,31 @@ struct Slots
    std::queue<int>                   qi[NS];
    std::stack<int>                   ki[NS];
    std::priority_queue<int>          pi[NS];
-   int                               ai[NS][4] = {};
-   std::array<int, 4>                ri[NS] = {};
+   // fixed-size destinations: every slot is its own exact-size heap block, so that AddressSanitizer sees a write
+   // behind the last element (inside one struct it would land in the neighbour slot unnoticed)
+   using Arr4 = int[4];
+   Arr4*                             aiP[NS];
+   std::array<int, 4>*               riP[NS];
+   Arr4&                             AI(size_t n) { return *aiP[n]; }
+   std::array<int, 4>&               RI(size_t n) { return *riP[n]; }
+   Slots()
+   {
+      for (size_t n = 0; n < NS; ++n)
+      {
+         aiP[n] = reinterpret_cast<Arr4*>(new int[4]());
+         riP[n] = new std::array<int, 4>();
+      }
+   }
+   ~Slots()
+   {
+      for (size_t n = 0; n < NS; ++n)
+      {
+         delete[] reinterpret_cast<int*>(aiP[n]);
+         delete riP[n];
+      }
+   }
+   Slots(const Slots&) = delete;
+   Slots& operator=(const Slots&) = delete;
    std::tuple<int, std::string, int> ti[NS];
    std::bitset<16>                   bs[NS];
    std::vector<bool>                 vb[NS];
@@ -137,8 +160,8 @@ void initSlot(Slots& S, const std::string& slot, const std::vector<std::string>&
    else if (k == "qi") { for (int x : ints()) S.qi[n].push(x); }
    else if (k == "ki") { for (int x : ints()) S.ki[n].push(x); }
    else if (k == "pi") { for (int x : ints()) S.pi[n].push(x); }
-   else if (k == "ai") { auto v = ints(); for (size_t j = 0; j < 4 && j < v.size(); ++j) S.ai[n][j] = v[j]; }
-   else if (k == "ri") { auto v = ints(); for (size_t j = 0; j < 4 && j < v.size(); ++j) S.ri[n][j] = v[j]; }
+   else if (k == "ai") { auto v = ints(); for (size_t j = 0; j < 4 && j < v.size(); ++j) S.AI(n)[j] = v[j]; }
+   else if (k == "ri") { auto v = ints(); for (size_t j = 0; j < 4 && j < v.size(); ++j) S.RI(n)[j] = v[j]; }
    else if (k == "bs") { for (int x : ints()) S.bs[n].set(x); }
    else if (k == "vb") { auto v = ints(); S.vb[n].resize(v.at(0)); for (size_t j = 1; j < v.size(); ++j) S.vb[n][v[j]] = true; }
    else throw std::invalid_argument("init for slot kind " + k);
@@ -168,8 +191,8 @@ TypedArgBase* bindSlot(Slots& S, const std::string& slot)
    if (k == "qi") return pa::destination(S.qi[n], slot);
    if (k == "ki") return pa::destination(S.ki[n], slot);
    if (k == "pi") return pa::destination(S.pi[n], slot);
-   if (k == "ai") return pa::destination(S.ai[n], slot);
-   if (k == "ri") return pa::destination(S.ri[n], slot);
+   if (k == "ai") return pa::destination(S.AI(n), slot);
+   if (k == "ri") return pa::destination(S.RI(n), slot);
    if (k == "ti") return pa::destination(S.ti[n], slot);
    if (k == "bs") return pa::destination(S.bs[n], slot);
    if (k == "vb") return pa::destination(S.vb[n], slot);
@@ -202,8 +225,8 @@ std::string dumpSlot(Slots& S, const std::string& slot)
    if (k == "qi") { auto q = S.qi[n]; std::vector<int> v; while (!q.empty()) { v.push_back(q.front()); q.pop(); } return joinInts(v); }
    if (k == "ki") { auto q = S.ki[n]; std::vector<int> v; while (!q.empty()) { v.push_back(q.top()); q.pop(); } return joinInts(v); }
    if (k == "pi") { auto q = S.pi[n]; std::vector<int> v; while (!q.empty()) { v.push_back(q.top()); q.pop(); } return joinInts(v); }
-   if (k == "ai") { std::vector<int> v(S.ai[n], S.ai[n] + 4); return joinInts(v); }
-   if (k == "ri") return joinInts(S.ri[n]);
+   if (k == "ai") { std::vector<int> v(S.AI(n), S.AI(n) + 4); return joinInts(v); }
+   if (k == "ri") return joinInts(S.RI(n));
    if (k == "ti") return "(" + std::to_string(std::get<0>(S.ti[n])) + ",s" + vf::hex(std::get<1>(S.ti[n])) + "," + std::to_string(std::get<2>(S.ti[n])) + ")";
    if (k == "bs") { std::vector<int> v; for (size_t j = 0; j < 16; ++j) if (S.bs[n][j]) v.push_back(j); return joinInts(v); }
    if (k == "vb") { std::vector<int> v; for (size_t j = 0; j < S.vb[n].size(); ++j) if (S.vb[n][j]) v.push_back(j); return std::to_string(S.vb[n].size()) + joinInts(v); }
